@@ -6,4 +6,12 @@ CLAIMS = {
         "text": "Proved in Lean for all inputs: from_labels accepts exactly the label sequences that are non-empty, end in the root label, have no other empty label and encode in <= 255 octets, and the name it builds records exactly its encoded length (C16_fromLabels_rejects/_wf); Label::try_from rejects exactly > 63 octets and lower-cases (C16_label_*); every name built from dotted text, relative text or an origin join is well-formed (C16_fromDotted_wf, C16_fromRelativeDotted_wf, C16_makeSubdomainOf_wf); subdomain = label-wise suffix. The limits 63/255 are read from the Rust source on every run. The model is tied to the Rust by the name and wire-decode streams.",
         "note": "Trusted: Lean kernel; the model<->Rust tie is differential (sampled). Case-insensitivity of hashing/zone/cache lookup follows because every constructor lower-cases (proved) and lookups compare the stored labels (stream-checked).",
     },
+    "C03": {
+        "text": "The decoder model is a total Lean function on byte strings of every length (kernel-accepted structural/well-founded recursion with every index discharged by its guard: no panic, no non-termination); proved: < 2 octets => CompletelyBusted, sections exactly as long as the counts say; further theorems (ID on every error, soundness/completeness of name decoding w.r.t. the RFC 1035 grammar WireName, pointer-depth bound) are added as they close. Impl-vs-Model on random, mutated, truncated and adversarial byte strings; Impl-vs-Spec oracle = an independently structured reference decoder + the ID rule.",
+        "note": "Partial: native stack use per frame is observed, not proved. Trusted: Lean kernel; model<->Rust tie is differential.",
+    },
+    "C04": {
+        "text": "Proved: the serialiser's per-type RDATA layout equals the deserialiser's (both extracted from the Rust source each run); compression pointers are only memoised for offsets < 2^14; (name/message round-trip theorems are added as they close). Impl-vs-Model byte-exact on all 8192 header combinations, messages over all record types with shared and maximal names, sizes crossing 16 KiB and 64 KiB; oracle: reference decoder reads the implementation's bytes back to the same message and every pointer targets the start of a pointer-free name.",
+        "note": "Trusted: Lean kernel; model<->Rust tie is differential. Found and fixed F1 (pointer for offsets >= 16384).",
+    },
 }
